@@ -23,3 +23,13 @@ func VerifHTMLIOFault(n int) {
 		return (&Minifier{}).Minify(m, w, r, nil)
 	})
 }
+
+var verifHTMLTruncDoc = "<!doctype html><!-- c --><p a=\"b\" c='d' e=f>x<br/><script>a</script><style>b{}</style><svg><a/></svg><math><b/></math><![CDATA[y]]><?pi x?></p>"
+
+// VerifHTMLIOFaultTruncated: C14 on every prefix of a document that uses every token kind.
+func VerifHTMLIOFaultTruncated(n int) {
+	m := minify.New()
+	verifIOFaultTruncated([]byte(verifHTMLTruncDoc), func(w io.Writer, r io.Reader) error {
+		return (&Minifier{}).Minify(m, w, r, nil)
+	})
+}
